@@ -59,25 +59,24 @@ func (v *Vue) resolveComponentTags(nodes []*html.Node) error {
 
 // processComponentNode recursively processes a node and its children to replace component tags.
 func (v *Vue) processComponentNode(node *html.Node) error {
+	// Is this node a registered component tag?
+	filename, registered := "", false
 	if node.Type == html.ElementNode {
-		// Check if this node is a registered component tag
-		if filename, ok := v.GetComponentFile(node.Data); ok {
-			// Replace the element with a template include
-			if err := v.replaceWithInclude(node, filename); err != nil {
-				return err
-			}
-			// Don't process children since we've replaced the node
-			return nil
-		}
+		filename, registered = v.GetComponentFile(node.Data)
 	}
 
-	// Process children
+	// Process children - also those of a component tag: they are the content supplied to the
+	// component, and shorthand tags in there are resolved like anywhere else
 	for c := node.FirstChild; c != nil; c = c.NextSibling {
 		if err := v.processComponentNode(c); err != nil {
 			return err
 		}
 	}
 
+	if registered {
+		// Replace the element with a template include
+		return v.replaceWithInclude(node, filename)
+	}
 	return nil
 }
 
